@@ -324,9 +324,15 @@ def default_modifier(op, **kwargs):
         if att is None or np.allclose(att, 1):
             pass  # nothing to do
         else:
-            # update T operator (align leading axes)
-            alpha, att = common.expand_arrays(op.alpha, att, append=True)
-            op = operators.T(alpha * att, op.phi, name=op.name, duration=op.duration)
+            # update T operator (align leading axes, keeping the operator's own `axes=` placement)
+            alpha, phi = op.alpha, op.phi
+            if getattr(op, "axes", None) is not None:
+                alpha, phi = [
+                    common.set_axes(0, np.asarray(arr), op.axes) if np.ndim(arr) else arr
+                    for arr in common.expand_arrays(alpha, phi, append=True)
+                ]
+            alpha, att = common.expand_arrays(alpha, att, append=True)
+            op = operators.T(alpha * att, phi, name=op.name, duration=op.duration)
             op.name += "#"
 
     if np.any(op.duration > 0):
